@@ -42,7 +42,15 @@ const (
 	FaultCutEOF   = "cut-eof"   // after Offset bytes the reader sees EOF, the writer EPIPE
 	FaultCutRST   = "cut-rst"   // after Offset bytes the reader sees ECONNRESET, the writer EPIPE
 	FaultWriteErr = "write-err" // the Write crossing Offset is short and fails; later writes fail
+	// transient conditions: one call fails with an error that says Temporary()
+	// and Timeout() (as an expired deadline would), the connection stays usable
+	FaultWriteTemp = "write-temp-err" // the Write crossing Offset is short and fails once
+	FaultReadTemp  = "read-temp-err"  // the first Read after Offset bytes were consumed fails once
 )
+
+func transient(kind string) bool {
+	return kind == FaultWriteErr || kind == FaultWriteTemp || kind == FaultReadTemp
+}
 
 type Fault struct {
 	Kind   string
@@ -255,7 +263,7 @@ func (p *Pipe) sendThreshold(remaining int) int {
 func (p *Pipe) nextFaultOffset() (int64, *Fault) {
 	var best *Fault
 	for _, f := range p.faults {
-		if f.fired || f.Kind == FaultWriteErr {
+		if f.fired || transient(f.Kind) {
 			continue
 		}
 		if best == nil || f.Offset < best.Offset {
@@ -407,7 +415,7 @@ func (p *Pipe) wakeWriter() {
 // delivery to trigger (e.g. cut at offset 0).
 func (p *Pipe) checkImmediateFaults() {
 	for _, f := range p.faults {
-		if !f.fired && f.Kind != FaultWriteErr && f.Offset <= p.Delivered {
+		if !f.fired && !transient(f.Kind) && f.Offset <= p.Delivered {
 			p.fire(f)
 		}
 	}
@@ -438,10 +446,21 @@ func (c *Conn) Read(b []byte) (int, error) {
 		var n int
 		var err error
 		done := true
+		var tempRead *Fault
+		for _, f := range p.faults {
+			if f.Kind == FaultReadTemp && !f.fired && p.Consumed >= f.Offset {
+				tempRead = f
+			}
+		}
 		switch {
 		case c.closed:
 			err = closedErr("read")
 		case !c.rdl.IsZero() && !time.Now().Before(c.rdl):
+			err = timeoutErr("read")
+		case tempRead != nil:
+			tempRead.fired = true
+			s.CountLocked("fault."+tempRead.Kind, 1)
+			s.LogLocked("fault", p.name+" "+tempRead.Kind+"@"+strconv.FormatInt(tempRead.Offset, 10))
 			err = timeoutErr("read")
 		case len(b) == 0:
 		case len(p.readable) > 0:
@@ -551,13 +570,17 @@ func (c *Conn) Write(b []byte) (int, error) {
 				}
 				// write-error fault inside this chunk?
 				for _, f := range p.faults {
-					if f.Kind == FaultWriteErr && !f.fired && f.Offset >= p.Written && f.Offset < p.Written+int64(k) {
+					if (f.Kind == FaultWriteErr || f.Kind == FaultWriteTemp) && !f.fired && f.Offset >= p.Written && f.Offset < p.Written+int64(k) {
 						k = int(f.Offset - p.Written)
 						f.fired = true
 						s.CountLocked("fault."+f.Kind, 1)
 						s.LogLocked("fault", p.name+" "+f.Kind+"@"+strconv.FormatInt(f.Offset, 10))
-						p.wrBroken = &net.OpError{Op: "write", Net: "tcp", Err: syscall.EIO}
-						err = p.wrBroken
+						if f.Kind == FaultWriteTemp {
+							err = timeoutErr("write")
+						} else {
+							p.wrBroken = &net.OpError{Op: "write", Net: "tcp", Err: syscall.EIO}
+							err = p.wrBroken
+						}
 						break
 					}
 				}
